@@ -1,21 +1,15 @@
-"""Generates MANIFEST.json from the table below (run: python3 lib/manifest.py)."""
+"""Generates MANIFEST.json from lib/claims/<Cxx>.json (run: python3 lib/manifest.py).
+A property is claimed iff lib/claims/<Cxx>.json exists; everything else is listed under not_applicable
+with the reason given in NOT_YET (or the default work-in-progress text)."""
+import glob
 import json
 import os
 
 ROOT = os.path.dirname(os.path.dirname(os.path.abspath(__file__)))
 
-CHECKS = {
-    "C11": dict(
-        text="Kernel-checked refinement proof (Coq 8.16.1): every reachable state of the CompactOrderedHashMap model (any constructor, any sequence of inserts/overwrites, any size) represents the insertion-ordered association list obtained by the same operations, and every observer (len, iter, keys, to_vec, get, get_index, get_pair) returns what the list says; slots are exactly 0..n-1, never shared, skipped or moved. The hand-written model is tied to the Rust code on every run by a differential correspondence stream (op sequences, every observable after every op, model evaluated with vm_compute) and the specification itself is evaluated on the same cases against the implementation's output.",
-        design="DESIGN.md section 4 C11",
-        note="Trusted: Coq kernel and vm_compute; the hand transcription coq/Model/CompactMap.v (agreement with the code measured per run, not proved); std HashMap specified as a finite map with unspecified iteration order; keys with decidable equality; `new` on duplicate-free keys. No axioms (Print Assumptions: closed under the global context).",
-        technique="Rocq proof: refinement to an insertion-ordered list by induction over op sequences + differential correspondence"),
-    "C09": dict(
-        text="Kernel-checked proofs (Coq 8.16.1, closed under the global context) over the exact-rational reading of the unit model and the factor table REGENERATED from the Rust unit files on every run: every conversion is multiplication by one constant (additive, homogeneous), identity for equal units, round trip within 0.1 % for all 77 ordered pairs of the six families and every rational magnitude and sign (finite table fact by vm_compute, lifted by linearity), agreement within 0.1 % with an explicit exact SI table for distance, time, speed, grade, weight; Time/Speed/Energy constructors equal distance/speed, distance/time, rate*distance times the combined table factor, within 0.31 % / 0.1 % of the SI definition for all 60+60+25 unit combinations; create_time returns Err for speed <= 0 or distance <= 0. The table is tied to the code by a second, behavioural extraction from the compiled functions and by a bit-exact binary64 execution of the model against the real convert/create functions; the specification is also evaluated in Coq on the implementation's outputs.",
-        design="DESIGN.md section 4 C09",
-        note="Trusted: Coq kernel + vm_compute; the SI/energy-rate specification tables and tolerances in Props/C09.v (C09Spec); hand transcription of builders in Model/Units.v (agreement measured per run, not proved); translator/tr_units.py (cross-checked by behavioural extraction). Theorems are about real arithmetic: rounding, overflow, NaN, subnormals are outside them (exercised bit-exactly; a differing-bits case is accepted only within 1e-9 relative of the exact model value, outcome class only next to the subnormal/overflow range; 0 such cases on the pinned tree). Energy family: linearity, identity, round trip only. Accumulated constructor tolerance 0.31 %. No axioms.",
-        technique="Rocq proof: finite table facts over the translator-regenerated factor table lifted to all magnitudes by linearity + behavioural table extraction + bit-exact differential correspondence + verified-spec evaluation on implementation output"),
-}
+CHECKS = {}
+for f in sorted(glob.glob(os.path.join(ROOT, "lib", "claims", "C*.json"))):
+    CHECKS[os.path.basename(f)[:-5]] = json.load(open(f))
 
 NOT_YET = {}
 
